@@ -482,10 +482,23 @@ class ExprMixin:
             if isinstance(vv, ValidatorV) and vv.kind in ('instance_of', 'in_') and isinstance(vv.type, ClassV) and \
                     isinstance(vv.type.cls, ClassInfo):
                 typ = vv.type.cls
+            elif isinstance(vv, ValidatorV) and vv.kind == 'instance_of' and isinstance(vv.type, tuple) and vv.type and \
+                    all(isinstance(x, ClassV) and isinstance(x.cls, ClassInfo) for x in vv.type):
+                typ = ('union', [x.cls for x in vv.type])
             elif isinstance(vv, ValidatorV) and vv.kind == 'deep_iterable' and isinstance(vv.inner, ValidatorV) and \
                     vv.inner.kind in ('instance_of', 'in_') and isinstance(vv.inner.type, ClassV) and \
                     isinstance(vv.inner.type.cls, ClassInfo):
                 typ = ('iter', vv.inner.type.cls)
+        if typ is None:
+            post = cinfo.resolve('__attrs_post_init__')
+            if post is not None:
+                for st in ast.walk(post.node):
+                    if isinstance(st, ast.Assign) and len(st.targets) == 1 and isinstance(st.targets[0], ast.Attribute) and \
+                            isinstance(st.targets[0].value, ast.Name) and st.targets[0].value.id == 'self' and \
+                            st.targets[0].attr == fld.name and isinstance(st.value, ast.Call):
+                        cv = self.eval(st.value.func, self.new_frame(None, post.module, recv=ClassV(cinfo), defcls=post.cls))
+                        if isinstance(cv, ClassV) and isinstance(cv.cls, ClassInfo):
+                            typ = cv.cls
         self._var_memo[key] = typ
         return typ
 
@@ -612,6 +625,8 @@ class ExprMixin:
 
     def self_attr(self, base, attr, fr, node):
         holder = base.typ if base.path else base.root_cls
+        if not isinstance(holder, ClassInfo):
+            holder = None
         if holder is None:
             return SelfV(base.path + (attr,), None, base.root_cls)
         f = holder.resolve(attr)
